@@ -229,3 +229,126 @@ def gen_accept(r):
         if r.chance(1, 3 if k >= 4 else 6):
             acc.append(t)
     return acc
+
+
+# ------------------------------------------------------------------ conic family
+CONES = ['QuadraticConeConstraint', 'RotatedQuadraticConeConstraint']
+
+
+def sq(j):
+    return ('pow', ('v', j), ('n', F(2)))
+
+
+def nsum(terms):
+    if len(terms) == 1:
+        return terms[0]
+    if len(terms) == 2:
+        return ('+', terms[0], terms[1])
+    return ('sum', terms)
+
+
+def scaled(c, e):
+    return e if c == 1 else ('*', ('n', F(c)), e)
+
+
+def gen_conic_model(r, names='benign'):
+    """cone rows (x^2+y^2 <= z^2 with z >= 0; rotated x^2 <= 2yz; sqrt forms) + a (convex separable / other) QP objective.
+    returns (Model, features)"""
+    feats = {'conic'}
+    m = Model()
+    nv = r.rint(3, 6)
+    vnames = make_names(r, names, nv, 'x')
+    nonneg = set()
+    for j in range(nv):
+        lb, ub = None, None
+        k = r.below(4)
+        if k == 0:
+            lb = F(0); nonneg.add(j)
+        elif k == 1:
+            lb, ub = F(0), F(r.rint(1, 9)); nonneg.add(j)
+        elif k == 2:
+            lb, ub = F(-r.rint(1, 5)), F(r.rint(1, 9))
+        m.var(lb, ub, False, name=vnames[j])
+    # make sure there are enough non-negative variables for cone heads
+    while len(nonneg) < 2:
+        j = r.below(nv)
+        m.vars[j]['lb'] = F(0)
+        nonneg.add(j)
+    nn = sorted(nonneg)
+    ncone = r.choice([0, 1, 1, 1, 2])
+    cnames = make_names(r, names, ncone + 2, 'c')
+    for k in range(ncone):
+        kind = r.below(4)
+        others = [j for j in range(nv)]
+        if kind == 0:                      # standard SOC: sum c_i x_i^2 <= c_z z^2
+            z = r.choice(nn)
+            xs = [j for j in others if j != z]
+            xs = xs[:r.rint(1, len(xs))]
+            cz = r.choice([1, 1, 4, 9])
+            lhs = [scaled(r.choice([1, 1, 4]), sq(j)) for j in xs] + [('neg', scaled(cz, sq(z)))]
+            m.con(None, F(0), {}, nl=nsum(lhs), name=cnames[k])
+            feats.add('soc')
+        elif kind == 1:                    # z^2 >= sum x_i^2 written the other way round
+            z = r.choice(nn)
+            xs = [j for j in others if j != z][:r.rint(1, nv - 1)]
+            m.con(F(0), None, {}, nl=('-', sq(z), nsum([sq(j) for j in xs])), name=cnames[k])
+            feats.add('soc_ge')
+        elif kind == 2 and len(nn) >= 2:   # rotated: sum x_i^2 <= 2 y z
+            y, z = nn[0], nn[1]
+            xs = [j for j in others if j not in (y, z)][:r.rint(1, max(1, nv - 2))]
+            if not xs:
+                xs = [y]
+            m.con(None, F(0), {}, nl=('-', nsum([sq(j) for j in xs]), ('*', ('n', F(2)), ('*', ('v', y), ('v', z)))), name=cnames[k])
+            feats.add('rsoc')
+        else:                              # sqrt(sum x_i^2) <= z
+            z = r.choice(nn)
+            xs = [j for j in others if j != z][:r.rint(2, max(2, nv - 1))]
+            m.con(None, F(0), {z: F(-1)}, nl=('sqrt', nsum([sq(j) for j in xs] + ([('n', F(r.rint(1, 4)))] if r.chance(1, 3) else []))), name=cnames[k])
+            feats.add('soc_sqrt')
+    if r.chance(1, 2):
+        m.con(small(r), None, lin_expr(r, nv, False), name=cnames[-1])
+    if r.chance(1, 4):
+        m.con(None, F(r.rint(1, 20)), {}, nl=nsum([sq(j) for j in range(min(2, nv))]), name=cnames[-2])   # a non-cone convex quadratic row
+        feats.add('quadcon')
+    ok = r.below(7)
+    oname = make_names(r, names, 1, 'ob')[0]
+    js = list(range(nv))[:r.rint(1, nv)]
+    if ok <= 2:                            # convex separable: min sum c_i x_i^2
+        m.obj('min', {}, nl=nsum([scaled(r.choice([1, 1, 2, 3]), sq(j)) for j in js]), name=oname)
+        feats.add('qpobj_sep_convex')
+    elif ok == 3:                          # max -sum c_i x_i^2 (convex sign for max)
+        m.obj('max', {}, nl=('neg', nsum([scaled(r.choice([1, 2]), sq(j)) for j in js])), name=oname)
+        feats.add('qpobj_sep_concave_max')
+    elif ok == 4:                          # separable + linear part, or non-separable
+        if r.chance(1, 2):
+            m.obj('min', lin_expr(r, nv, False), nl=nsum([sq(j) for j in js]), name=oname)
+            feats.add('qpobj_sep_plus_lin')
+        else:
+            m.obj('min', {}, nl=('+', sq(js[0]), ('*', ('v', 0), ('v', nv - 1))), name=oname)
+            feats.add('qpobj_nonsep')
+    elif ok == 5:
+        m.obj(r.choice(['min', 'max']), lin_expr(r, nv, False), name=oname)
+        feats.add('linobj')
+    return m, feats
+
+
+def gen_conic_config(r):
+    """-> (accept list, options)"""
+    acc = list(LIN)
+    if r.chance(3, 4):
+        acc += QUAD
+    if r.chance(2, 3):
+        acc += [c for c in CONES if r.chance(3, 4)]
+    opts = []
+    k = r.below(4)
+    if k < 2:
+        opts.append('cvt:quadobj=1')
+    elif k == 2:
+        opts.append('cvt:quadobj=0')
+    k = r.below(5)
+    if k < 3:
+        opts.append('cvt:socp=%d' % k)
+    k = r.below(6)
+    if k < 3:
+        opts.append('cvt:socp2qc=%d' % k)
+    return acc, opts
